@@ -485,3 +485,167 @@ Proof. intros [H _]; exact H. Qed.
 
 Lemma WFs_Struct st : WFs st -> Struct st.
 Proof. intros H. apply WFs_split in H. exact (proj1 H). Qed.
+
+(* ------------------------------------------------------------------ attachments stay on existing owners *)
+
+Lemma Owned_put_store st w s : Owned st -> store_owned s -> Owned (put_store st w s).
+Proof.
+  intros HO Hs w' s'. unfold get_store, put_store; cbn. rewrite nf_set.
+  destruct (N.eqb_spec w' w); [intros E; inversion E; subst; exact Hs|apply HO].
+Qed.
+
+Lemma Owned_upsert_instance st w m s : Owned st -> store_owned s -> Owned (upsert_instance st w m s).
+Proof.
+  intros HO Hs w' s'. unfold get_store, upsert_instance; cbn. rewrite nf_set.
+  destruct (N.eqb_spec w' w); [intros E; inversion E; subst; exact Hs|apply HO].
+Qed.
+
+Lemma empty_store_owned : store_owned empty_store.
+Proof. split; intros x H; discriminate. Qed.
+
+Lemma insert_node_owned s n ty : store_owned s -> store_owned (insert_node s n ty).
+Proof.
+  intros [H1 H2]. split; cbn; [|exact H2]. intros x Hx. rewrite nmem_set. rewrite (H1 x Hx). apply orb_true_r.
+Qed.
+
+Lemma upsert_edge_owned s e r : store_owned s -> store_owned (upsert_edge s e r).
+Proof.
+  intros [H1 H2]. split; cbn; [exact H1|]. intros x Hx. rewrite nmem_set. rewrite (H2 x Hx). apply orb_true_r.
+Qed.
+
+Lemma nmem_opt_set {V} k k' (v : option V) m : nsorted m ->
+  nmem k' (opt_set k v m) = if k' =? k then (match v with Some _ => true | None => false end) else nmem k' m.
+Proof.
+  intros Hs. unfold mem. rewrite nf_opt_set by exact Hs. destruct (k' =? k); [destruct v|]; reflexivity.
+Qed.
+
+Lemma set_node_att_owned s n v : store_sorted s -> store_owned s -> nmem n (s_nodes s) = true ->
+  store_owned (set_node_att s n v).
+Proof.
+  intros (_ & _ & C & _) [H1 H2] Hn. split; cbn; [|exact H2]. intros x Hx.
+  rewrite nmem_opt_set in Hx by exact C. destruct (N.eqb_spec x n); [subst; exact Hn|apply H1, Hx].
+Qed.
+
+Lemma set_edge_att_owned s e v : store_sorted s -> store_owned s -> nmem e (s_edges s) = true ->
+  store_owned (set_edge_att s e v).
+Proof.
+  intros (_ & _ & _ & D) [H1 H2] He. split; cbn; [exact H1|]. intros x Hx.
+  rewrite nmem_opt_set in Hx by exact D. destruct (N.eqb_spec x e); [subst; exact He|apply H2, Hx].
+Qed.
+
+Lemma delete_node_owned s n s' : store_sorted s -> store_owned s -> delete_node_isolated s n = DnOk s' -> store_owned s'.
+Proof.
+  intros (A & _ & C & _) [H1 H2]. unfold delete_node_isolated.
+  destruct (nfind n (s_nodes s)); [|discriminate]. destruct (existsb _ _); [discriminate|].
+  intros E; inversion E; subst. split; cbn; [|exact H2]. intros x Hx.
+  rewrite (nmem_del n x _ C) in Hx. rewrite (nmem_del n x _ A). apply andb_true_iff in Hx. destruct Hx as [Hx1 Hx2].
+  rewrite Hx1, (H1 x Hx2). reflexivity.
+Qed.
+
+Lemma delete_edge_owned s f e s' : store_sorted s -> store_owned s -> delete_edge_exact s f e = Some s' -> store_owned s'.
+Proof.
+  intros (_ & B & _ & D) [H1 H2]. unfold delete_edge_exact.
+  destruct (nfind e (s_edges s)); [|discriminate]. destruct (_ =? _); [|discriminate].
+  intros E; inversion E; subst. split; cbn; [exact H1|]. intros x Hx.
+  rewrite (nmem_del e x _ D) in Hx. rewrite (nmem_del e x _ B). apply andb_true_iff in Hx. destruct Hx as [Hx1 Hx2].
+  rewrite Hx1, (H2 x Hx2). reflexivity.
+Qed.
+
+Definition owner_in (st : state) (k : akey) : Prop :=
+  match get_store st (ak_warp k) with
+  | Some s => if ak_edge k then nmem (ak_id k) (s_edges s) = true else nmem (ak_id k) (s_nodes s) = true
+  | None => False
+  end.
+
+Lemma set_att_raw_Owned st k v st' : Struct st -> Owned st -> owner_in st k ->
+  set_att_raw st (ak_warp k) k v = Ok st' -> Owned st'.
+Proof.
+  intros HS HO Hk. unfold set_att_raw, owner_in in *. destruct (get_store st (ak_warp k)) as [s|] eqn:G; [|discriminate].
+  intros E; inversion E; subst. apply Owned_put_store; [exact HO|].
+  pose proof (Struct_store _ _ _ HS G) as Hss. pose proof (HO _ _ G) as Hso.
+  destruct (ak_edge k); [apply set_edge_att_owned|apply set_node_att_owned]; assumption.
+Qed.
+
+Lemma apply_op_Owned st o st' : Struct st -> Owned st -> apply_op st o = Ok st' -> Owned st'.
+Proof.
+  intros HS HO.
+  destruct o as [k cw cr init|w root parent|w|w n ty|w n|w e f t ty|w f e|k v]; cbn [apply_op].
+  - unfold apply_open_portal, bind. destruct (validate_owner st k) as [pw|] eqn:V; [|discriminate].
+    apply validate_owner_ok in V. destruct V as (-> & _ & sp & Gp & Hown).
+    assert (Hk : owner_in st k). { unfold owner_in. rewrite Gp. exact Hown. }
+    destruct (get_inst st cw) as [m|] eqn:Gi.
+    + destruct (_ || _); [discriminate|].
+      destruct (ensure_child_root st cw cr init) as [st1|] eqn:E1; [|discriminate].
+      intros E. eapply (set_att_raw_Owned st1); [eapply ensure_child_root_Struct; eauto| | |exact E].
+      * unfold ensure_child_root in E1. destruct (get_store st cw) as [s|] eqn:G; [|discriminate].
+        destruct init as [ty|].
+        -- destruct (nfind cr (s_nodes s)) as [ty'|]; [destruct (ty' =? ty); inversion E1; subst; exact HO|].
+           inversion E1; subst. apply Owned_put_store; [exact HO|]. apply insert_node_owned. apply (HO _ _ G).
+        -- destruct (nfind cr (s_nodes s)); inversion E1; subst; exact HO.
+      * unfold ensure_child_root in E1. destruct (get_store st cw) as [s|] eqn:G; [|discriminate].
+        assert (Hsame : st1 = st \/ exists ty, st1 = put_store st cw (insert_node s cr ty)).
+        { destruct init as [ty|].
+          - destruct (nfind cr (s_nodes s)) as [ty'|]; [destruct (ty' =? ty); inversion E1; auto|].
+            inversion E1; eauto.
+          - destruct (nfind cr (s_nodes s)); inversion E1; auto. }
+        destruct Hsame as [->|[ty ->]]; [exact Hk|].
+        unfold owner_in, get_store, put_store in *; cbn. rewrite nf_set.
+        destruct (N.eqb_spec (ak_warp k) cw) as [Ew|Ew]; [|exact Hk].
+        rewrite Ew in *. unfold get_store in G. rewrite G in Hk. cbn.
+        destruct (ak_edge k); [exact Hk|]. rewrite nmem_set, Hk. apply orb_true_r.
+    + destruct init as [ty|]; [|discriminate]. intros E.
+      assert (Hne : ak_warp k <> cw).
+      { intros Ew. rewrite Ew in Gp. apply (sync_store_inst st cw HS) in Gi. congruence. }
+      eapply (set_att_raw_Owned (upsert_instance st cw (cr, Some k) (insert_node empty_store cr ty))); [| | |exact E].
+      * apply Struct_upsert_instance; [exact HS|apply insert_node_sorted, empty_store_sorted].
+      * apply Owned_upsert_instance; [exact HO|apply insert_node_owned, empty_store_owned].
+      * unfold owner_in, get_store, upsert_instance in *; cbn. rewrite nf_set.
+        destruct (N.eqb_spec (ak_warp k) cw); [contradiction|exact Hk].
+  - intros E; inversion E; subst. apply Owned_upsert_instance; [exact HO|].
+    destruct (get_store st w) eqn:G; [apply (HO _ _ G)|apply empty_store_owned].
+  - destruct (get_inst st w); [|discriminate]. intros E; inversion E; subst.
+    intros w' s'. unfold get_store; cbn. destruct HS as (A & _). rewrite nf_del by exact A.
+    destruct (w' =? w); [discriminate|apply HO].
+  - destruct (get_store st w) as [s|] eqn:G; [|discriminate]. intros E; inversion E; subst.
+    apply Owned_put_store; [exact HO|apply insert_node_owned, (HO _ _ G)].
+  - destruct (get_store st w) as [s|] eqn:G; [|discriminate].
+    destruct (delete_node_isolated s n) as [s'| |] eqn:Dn; try discriminate.
+    intros E; inversion E; subst. apply Owned_put_store; [exact HO|].
+    eapply delete_node_owned; [eapply Struct_store; eauto|apply (HO _ _ G)|exact Dn].
+  - destruct (get_store st w) as [s|] eqn:G; [|discriminate]. intros E; inversion E; subst.
+    apply Owned_put_store; [exact HO|apply upsert_edge_owned, (HO _ _ G)].
+  - destruct (get_store st w) as [s|] eqn:G; [|discriminate].
+    destruct (delete_edge_exact s f e) as [s'|] eqn:De; [|discriminate].
+    intros E; inversion E; subst. apply Owned_put_store; [exact HO|].
+    eapply delete_edge_owned; [eapply Struct_store; eauto|apply (HO _ _ G)|exact De].
+  - unfold apply_set_att. destruct (negb (plane_valid k)); [discriminate|].
+    destruct (get_store st (ak_warp k)) as [s|] eqn:G; [|discriminate].
+    pose proof (Struct_store _ _ _ HS G) as Hss. pose proof (HO _ _ G) as Hso.
+    destruct (ak_edge k).
+    + destruct (has_edge s (ak_id k)) eqn:Hh; [|discriminate]. intros E; inversion E; subst.
+      apply Owned_put_store; [exact HO|apply set_edge_att_owned; assumption].
+    + destruct (nfind (ak_id k) (s_nodes s)) eqn:Hn; [|discriminate]. intros E; inversion E; subst.
+      apply Owned_put_store; [exact HO|]. apply set_node_att_owned; [assumption|assumption|].
+      unfold mem. rewrite Hn. reflexivity.
+Qed.
+
+Lemma apply_loop_WFs ops : forall st t st' t',
+  Struct st -> Owned st -> apply_loop st t ops = Ok (st', t') -> Struct st' /\ Owned st'.
+Proof.
+  induction ops as [|o ops IH]; intros st t st' t' HS HO; cbn [apply_loop].
+  - intros E; inversion E; subst; auto.
+  - destruct (apply_op st o) as [st1|] eqn:E1; [|discriminate].
+    apply IH; [eapply apply_op_Struct; eauto|eapply apply_op_Owned; eauto].
+Qed.
+
+Theorem apply_ops_WFs ops a s : WFs a -> apply_ops ops a = Ok s -> WFs s.
+Proof.
+  intros Wa H. apply WFs_split in Wa. destruct Wa as [Ha Oa]. apply apply_ops_loop in H. destruct H as [t H].
+  apply WFs_split. eapply apply_loop_WFs; eauto.
+Qed.
+
+Lemma w4_not_ref : ~ RefOk w4_after.
+Proof.
+  intros H. specialize (H 1 (mk_store [(1,7);(2,7)] [(9,(1,3,8))] [] []) eq_refl 9 (1,3,8) eq_refl).
+  destruct H as [_ H]. vm_compute in H. discriminate.
+Qed.
